@@ -62,9 +62,11 @@ CHECKS = {
             "the packet's fields, exactly one handler record per accepted PUBLISH, no acknowledgement while the handler "
             "is parked, the acknowledgement matches the QoS (nothing / PUBACK / PUBREC), PUBCOMP(0) only for a PUBREL "
             "that reached the protocol service, a failing handler never yields a success acknowledgement and stops the "
-            "connection; one refutation is a recorded finding (client, unrouted QoS 2). Model tied to real servers and "
-            "clients by 4.5*10^4 peer-packet/completion sequences per quick run plus peer's-view scans. Partial: "
-            "exactly-one-ack on the wire over whole runs is carried by the correspondence run, not by a run invariant.",
+            "connection; over whole runs of the server roles the PUBACK/PUBREC entries on the wire never outnumber the "
+            "handler completions given so far (C03_one_ack_per_handler_run); one refutation is a recorded finding "
+            "(client, unrouted QoS 2). Model tied to real servers and clients by 4.9*10^4 peer-packet/completion "
+            "sequences per quick run plus peer's-view scans. Partial: the per-identifier form of the run-level "
+            "accounting and the client roles are carried by the correspondence run.",
             "section 5, C03"),
     "C11": ("Coq theorems (Props/C11.v, 23), all states and packets: a packet whose id is in use is never delivered "
             "(v3: protocol error, v5: answered 0x91) and changes no protocol state; an id stays reserved across every "
@@ -81,11 +83,11 @@ CHECKS = {
             "wire). Tied to real v5 endpoints by initiator sequences and scans P5/P12.", "section 5, C15"),
     "C16": ("Coq theorems (Props/C16.v, 5): every well-formed packet in every state is handed to the application, "
             "answered, ends the connection with a protocol error (reason >= 0x80, Stop kind Protocol) or is one of the "
-            "listed ignored cases; an undecodable packet stops the dispatcher; at most one Stop over every run. The "
-            "no-panic half is carried by total models (no panic outcome reachable in the decision layer), by the sink "
-            "theorems for acknowledgements, and by runs against real endpoints incl. busy sinks. Partial: the response "
-            "queue index panic flag of the operational model is not proved unreachable (C04's history invariant is "
-            "not lifted to it); hangs inside ntex are observed only.", "section 5, C16"),
+            "listed ignored cases; an undecodable packet stops the dispatcher; at most one Stop over every run; "
+            "C16_no_panic / C16_engines_never_panic: over every operation list (< 2^64 operations) of the full "
+            "operational model, all four roles, the response-queue panic flag is never set (queue-index invariant W). "
+            "The sink side is carried by the sink theorems for acknowledgements and by runs against busy endpoints. "
+            "Partial: hangs inside ntex are observed only.", "section 5, C16"),
     "C17": ("Coq theorems (Props/C17.v, 13): an alias-only PUBLISH is delivered with the topic most recently bound "
             "to that alias on this connection, a PUBLISH with topic and alias rebinds exactly that alias, nothing else "
             "changes the table, unbound aliases are never delivered (0x94 once earlier checks pass), aliases over the "
@@ -144,7 +146,14 @@ EXTRA = {
     "C05": " The origin of the limit (min of configured/overridden max_send and the peer's Receive Maximum) is checked on "
            "real handshakes (engine hs, credit probes).",
     "C06": " A PUBLISH that cannot be encoded reserves nothing (C06_failed_publish_reserves_nothing, task kind 8).",
-    "C07": " Pending sends at teardown: closing schedules on the real sinks (clause 71); a failing handler must end the "
+    "C08": " At sink level (Props/C08sink.v): in every reachable state the sink's and the codec's view of the owed "
+           "payload agree, no packet is written while a payload is owed, a send that fails writes nothing and "
+           "registers nothing, chunks stay within the declared size.",
+    "C14": " Every reachable receipt has its channel under the executable 'PUBCOMP only after our PUBREL' predicate "
+           "(C14_receipt_has_channel), so the release theorems need no extra hypothesis.",
+    "C07": " Payload readers at teardown: engines plstop3/plstop5 with Model/PlStop.v and Props/C07pl.v (a reader "
+           "never finishes Ok with fewer bytes than announced; after the end it fails within buffered+1 polls)."
+           " Pending sends at teardown: closing schedules on the real sinks (clause 71); a failing handler must end the "
            "connection without waiting for another event (clause 8).",
     "C10": " The glue to the in-flight limiter (impl SizedRequest for Decoded) is modelled (Model/Sized.v, engines "
            "sized3/sized5): a PUBLISH with an incomplete payload is flagged whatever piece came with the header.",
